@@ -45,8 +45,8 @@ class EndpointReferenceType(XMLTypeBase):
 class RelatesTo(ElementWithText):
     """Contributes one abstract [relationship] property value."""
 
-    RelationshipType: str | None = struct.AnyUriTextElement(
-        nsh.WSA.tag('RelationshipType'),
+    RelationshipType: str | None = struct.AnyURIAttributeProperty(
+        'RelationshipType',
         is_optional=True,
         implied_py_value='http://www.w3.org/2005/08/addressing/reply')
     _props = ('RelationshipType',)
